@@ -269,10 +269,21 @@ class DimAnalysis:
             m = self.repo.modules[mn]
             for g in [x for x in self.repo.funcs.values() if x.module is m]:
                 for n in ast.walk(g.node):
-                    if isinstance(n, ast.Call) and isinstance(n.func, ast.Name) and len(n.args) == nparams and not n.keywords:
-                        site = self.cg.site_at(mn, n.lineno, n.col_offset)
-                        if site is not None and not site["resolved"] and idx is not None and idx < len(n.args):
-                            out.append((dict(caller=g.qual), n, n.args[idx]))
+                    if not (isinstance(n, ast.Call) and isinstance(n.func, ast.Name)):
+                        continue
+                    if len(n.args) + len(n.keywords) != nparams or any(k.arg is None for k in n.keywords):
+                        continue
+                    if any(isinstance(x, ast.Starred) for x in n.args):
+                        continue
+                    site = self.cg.site_at(mn, n.lineno, n.col_offset)
+                    if site is None or site["resolved"] or idx is None:
+                        continue
+                    if idx < len(n.args):
+                        out.append((dict(caller=g.qual), n, n.args[idx]))
+                    else:
+                        kw = [k.value for k in n.keywords if k.arg == pname]
+                        if kw:
+                            out.append((dict(caller=g.qual), n, kw[0]))
         return out
 
     def _bindings(self, target, value, name):
